@@ -40,6 +40,7 @@ type hshape struct {
 	Tasks []htask     `json:"tasks"`
 	Files []string    `json:"files"`           // project files the history may create, edit and delete
 	Links [][2]string `json:"links,omitempty"` // (file, target): the file may also be made a symbolic link to the target
+	Stamp bool        `json:"stamp,omitempty"` // a variable STAMP := exec("date +%s%N") is interpolated into every first command
 }
 
 func (s hshape) task(name string) *htask {
@@ -66,6 +67,7 @@ var histShapes = []hshape{
 	{Name: "same-base-name", Tasks: []htask{{Name: "A", Globs: []string{"**/*.txt"}, NCmd: 1}, {Name: "B", Lits: []string{"sub/a.txt"}, NCmd: 1}}, Files: []string{"a.txt", "sub/a.txt"}},
 	{Name: "self-rewritten-dependency", Tasks: []htask{{Name: "A", Lits: []string{"m.txt"}, NCmd: 1, Copies: [][2]string{{"x.txt", "m.txt"}}}, {Name: "B", Lits: []string{"m.txt"}, Deps: []string{"A"}, NCmd: 1}}, Files: []string{"m.txt", "x.txt"}},
 	{Name: "default-task", Tasks: []htask{{Name: "build", Lits: []string{"a.txt"}, NCmd: 1}, {Name: "default", Lits: []string{"b.txt"}, Deps: []string{"build"}, NCmd: 1}}, Files: []string{"a.txt", "b.txt"}},
+	{Name: "volatile-variable-in-command", Stamp: true, Tasks: []htask{{Name: "A", Lits: []string{"a.txt"}, NCmd: 1}, {Name: "B", Globs: []string{"*.txt"}, NCmd: 2}}, Files: []string{"a.txt"}},
 	{Name: "generated-input", Tasks: []htask{{Name: "A", Lits: []string{"a.txt"}, NCmd: 1, Copies: [][2]string{{"a.txt", "g.txt"}}}, {Name: "B", Lits: []string{"g.txt"}, Deps: []string{"A"}, NCmd: 1}}, Files: []string{"a.txt", "g.txt"}},
 	{Name: "chain-of-three", Tasks: []htask{{Name: "A", Lits: []string{"a.txt"}, NCmd: 1}, {Name: "B", Lits: []string{"b.txt"}, Deps: []string{"A"}, NCmd: 1}, {Name: "C", Deps: []string{"B"}, NCmd: 1}}, Files: []string{"a.txt", "b.txt"}},
 }
@@ -95,6 +97,10 @@ func newSandbox(root string) *sandbox {
 // runs of the binary) makes the command kill spok itself: the shell is in-process, $$ is spok.
 func (sb *sandbox) spokfileText(s hshape) string {
 	var b strings.Builder
+	if s.Stamp {
+		// the command text differs on every invocation; the declared inputs do not
+		b.WriteString("STAMP := exec(\"date +%s%N\")\n\n")
+	}
 	for _, t := range s.Tasks {
 		var deps []string
 		for _, d := range t.Deps {
@@ -109,6 +115,9 @@ func (sb *sandbox) spokfileText(s hshape) string {
 		fmt.Fprintf(&b, "task %s(%s) {\n", t.Name, strings.Join(deps, ", "))
 		for i := 0; i < t.NCmd; i++ {
 			work := ""
+			if i == 0 && s.Stamp {
+				work += " && test -n '{{.STAMP}}'"
+			}
 			if i == 0 {
 				for _, cp := range t.Copies {
 					work += fmt.Sprintf(" && cp %s %s", filepath.Join(sb.Proj, cp[0]), filepath.Join(sb.Proj, cp[1]))
